@@ -21,6 +21,24 @@ func TestDump(t *testing.T) {
 			t.Fatalf("no func %s", spec)
 		}
 		e := New(prog.SPkg)
+		if a := os.Getenv("FCONST"); a != "" {
+			e.FieldConst = map[string]uint64{}
+			for _, kv := range strings.Fields(a) {
+				i := strings.Index(kv, "=")
+				var v uint64
+				fmt.Sscanf(kv[i+1:], "%d", &v)
+				e.FieldConst[kv[:i]] = v
+			}
+		}
+		if a := os.Getenv("LLEN"); a != "" {
+			e.ListLen = map[string]int64{}
+			for _, kv := range strings.Fields(a) {
+				i := strings.Index(kv, "=")
+				var v int64
+				fmt.Sscanf(kv[i+1:], "%d", &v)
+				e.ListLen[kv[:i]] = v
+			}
+		}
 		res, err := e.AnalyzeEncoder(fn)
 		fmt.Printf("== ENC %s\n", spec)
 		if err != nil {
